@@ -106,6 +106,8 @@ class Repo:
         self.modules = {}
         self.classes = {}
         self.functions = {}
+        self.module_functions = {}
+        self._shadowed = []
         self.digest = hashlib.sha256()
         pkgdir = os.path.join(self.root, PKG)
         if not os.path.isdir(pkgdir):
@@ -128,7 +130,12 @@ class Repo:
                     if isinstance(st, ast.ClassDef):
                         self.classes[st.name] = ClassInfo(st.name, st, m)
                     elif isinstance(st, ast.FunctionDef):
-                        self.functions[st.name] = FuncInfo(st.name, st, None, m)
+                        fi = FuncInfo(st.name, st, None, m)
+                        self.module_functions[(rel, st.name)] = fi
+                        if st.name in self.functions:
+                            self._shadowed.append(fi)   # same name in two modules: each call resolves in its own module first
+                        else:
+                            self.functions[st.name] = fi
         self.enums = {n: c.enum_members for n, c in self.classes.items() if c.enum_members is not None}
         self.model_classes = sorted(n for n, c in self.classes.items() if c.enum_members is None)
         self._all_funcs = None
@@ -170,12 +177,21 @@ class Repo:
             raise AnalysisError(f"anchor vanished: function {name} not found")
         return self.functions[name]
 
+    def function_for(self, name, module):
+        """The module-level function `name` as seen from `module`: its own definition first, else the package-wide one."""
+        if module is not None:
+            fi = self.module_functions.get((module.relpath, name))
+            if fi is not None:
+                return fi
+        return self.functions.get(name)
+
     def all_funcs(self):
         if self._all_funcs is None:
             out = []
             for c in self.classes.values():
                 out.extend(c.methods.values())
             out.extend(self.functions.values())
+            out.extend(self._shadowed)
             self._all_funcs = out
         return self._all_funcs
 
